@@ -327,6 +327,90 @@ pub fn child(tier: &str) {
             viols.push(json!({"key": k, "what": w, "replay": rp}));
         }
     }
+    // long runs: step limits and program lengths around 2^8 and 2^16 (a narrow step counter or index
+    // would wrap there), on a flat program and on a bounded loop (exec dup of a block that ends in exec dup)
+    {
+        let flat_lens: Vec<usize> = if quick { vec![255, 256, 257, 300] } else { vec![255, 256, 257, 300, 65535, 65536, 65537] };
+        let limits: Vec<usize> = vec![0, 1, 254, 255, 256, 257, 258, 299, 300, 301, 511, 512, 513, 65534, 65535, 65536, 65537, 65538, 1_000_000];
+        let mut jobs: Vec<(RState, usize, String)> = vec![];
+        for &n in &flat_lens {
+            let mut r = RState::empty([usize::MAX; 4]);
+            r.exec = (0..n).rev().map(|i| PushProgram::Instruction(PushInstruction::push_int(i as i64))).collect();
+            for &l in &limits {
+                jobs.push((r.clone(), l, format!("long/flat/n={n}")));
+            }
+            // the same with a tight int stack: the overflow must strike at exactly the configured maximum
+            for cap in [254usize, 255, 256, 257] {
+                let mut t = r.clone();
+                t.caps[INT] = cap;
+                jobs.push((t, 1_000_000, format!("long/flat-cap/n={n}")));
+            }
+        }
+        let body = PushProgram::Block(vec![
+            PushProgram::Instruction(PushInstruction::PrintString(PrintString::new("x".into()))),
+            PushProgram::Instruction(exec_variant("Dup").into()),
+        ]);
+        for caps in [[usize::MAX; 4], [3, 1, 1, 1], [4, 0, 0, 0]] {
+            let mut r = RState::empty(caps);
+            r.exec = vec![body.clone(), PushProgram::Instruction(exec_variant("Dup").into())];
+            for &l in &limits {
+                if l <= 70_000 {
+                    jobs.push((r.clone(), l, "long/loop".to_string()));
+                }
+            }
+        }
+        let results = mcx::par_map(jobs.len(), |i| {
+            let (r, limit, label) = &jobs[i];
+            let want = match ref_run_long(r, *limit) {
+                Ok(w) => w,
+                Err(e) => return Some((format!("machinery/{label}"), e, json!({}))),
+            };
+            let real = run_real(r, *limit);
+            let ok = match (&real, &want) {
+                (RealFinal::Done(s), Final::Done(t)) => real_matches(s, t),
+                (RealFinal::Aborted(s, _), Final::Aborted(t)) => {
+                    // the carried state: failing item popped or not
+                    let mut u = t.clone();
+                    real_matches(s, t) || {
+                        if let Some(PushProgram::Instruction(_)) | Some(PushProgram::Block(_)) = observe(s).exec.last() {
+                            u.exec = observe(s).exec;
+                            real_matches(s, &u) && u.exec.len() == t.exec.len() + 1
+                        } else {
+                            false
+                        }
+                    }
+                }
+                _ => false,
+            };
+            if ok {
+                return None;
+            }
+            let obs = match &real {
+                RealFinal::Done(s) => {
+                    let o = observe(s);
+                    format!("Ok, {} ints, {} exec items, {} output bytes", o.int.len(), o.exec.len(), o.out.len())
+                }
+                RealFinal::Aborted(s, m) => {
+                    let o = observe(s);
+                    format!("Err({m}), {} ints, {} exec items", o.int.len(), o.exec.len())
+                }
+                RealFinal::Panic(p) => format!("PANIC {p}"),
+            };
+            let exp = match &want {
+                Final::Done(t) => format!("Ok, {} ints, {} exec items, {} output bytes", t.int.len(), t.exec.len(), t.out.len()),
+                Final::Aborted(t) => format!("Err(overflow), {} ints, {} exec items", t.int.len(), t.exec.len()),
+            };
+            Some((format!("interp/{label}"), format!("{label} caps {:?} step limit {limit}: ended as {obs}; the semantics prescribe {exp}", r.caps.iter().map(|c| if *c == usize::MAX { "max".to_string() } else { c.to_string() }).collect::<Vec<_>>()), json!({"check":"C03","kind":"long","label":label,"limit":limit})))
+        });
+        let mut n = 0u64;
+        for r in results {
+            n += 1;
+            if let Some((k, w, rp)) = r {
+                viols.push(json!({"key": k, "what": w, "replay": rp}));
+            }
+        }
+        tot["long_runs"] = json!(n);
+    }
     // extreme numeric values: every int/bool/float instruction on every ordered operand triple / pair of
     // the wide value alphabet (shared with C01(d)): must return, must not panic, result as the semantics admit
     {
@@ -442,6 +526,9 @@ pub fn run(run: &mut Run) {
     run.note("programs_truncated_at_max_limit", res["truncated"].clone());
     run.note("value_sweep.transitions", res["value_sweep_transitions"].clone());
     run.evaluations += res["value_sweep_transitions"].as_u64().unwrap_or(0);
+    run.note("long.runs", res["long_runs"].clone());
+    run.evaluations += res["long_runs"].as_u64().unwrap_or(0);
+    run.bound("long.step_limits", json!("0, 1, 254..258, 299..301, 511..513, 65534..65538, 10^6 on flat programs of 255..300 (thorough ..65537) literal pushes and on a bounded exec-dup loop"));
     run.note("deep.runs", res["deep_runs"].clone());
     run.note("deep.undecided", res["deep_undecided"].clone());
     run.note("deep.depths", res["deep_depths"].clone());
